@@ -125,12 +125,39 @@ def signed_leaf_value(tree, surfs, P, ctx):
     return None
 
 
-def identity_discharge(base, cases, g_neg, timeout_ms=5000):
+def point_coeffs(f):
+    """f (RatFn) as a polynomial in the point: ({point monomial: Poly numerator}, common denominator);
+    None if the point occurs in the denominator."""
+    for a, _ in f.den:
+        if set(POINT_NAMES) & a.vars():
+            return None
+    groups = {}
+    for m, c in f.num.t.items():
+        pm = tuple((v, e) for v, e in m if v in POINT_NAMES)
+        rest = tuple((v, e) for v, e in m if v not in POINT_NAMES)
+        groups.setdefault(pm, {})[rest] = c
+    return {pm: ratfn.Poly(t) for pm, t in groups.items()}, f.den
+
+
+ORIGIN_WITNESSES = [(0, 0, 0), (1, 0, 0), (0, 1, 0), (0, 0, 1)]
+
+
+def _witness_map(w):
+    return {nm: (c if isinstance(c, RatFn) else RatFn.const(Fraction(c))) for nm, c in zip(POINT_NAMES, w)}
+
+
+def identity_discharge(base, cases, g_neg, timeout_ms=5000, witnesses=()):
     """cases: [(cond, f)] with neg_ref <=> f < 0 under cond.  g_neg: T4 value with neg_T4 <=> g_neg < 0.
-    Prove g_neg * mu == f for a multiplier mu that is positive on the path.  The identity itself is
-    decided syntactically by the rational-function normal form (modulo the definitions of the square
-    roots); z3 is only asked that mu > 0 and whether a case is reachable."""
+    Prove f = mu * g_neg with mu > 0 free of the point: f and g are polynomials in the point; their
+    coefficient vectors F, G must be parallel (every 2x2 minor is the zero rational function -- decided
+    syntactically by the normal form, modulo the square-root definitions) and point the same way
+    (z3: F.G <= 0 is unsat on the path).  Returns True when every reachable case is proven."""
     g = g_neg if isinstance(g_neg, RatFn) else RatFn.const(g_neg)
+    G = point_coeffs(g)
+    if G is None or g.num.is_zero():
+        return False
+    G, gden = G
+    zp = ratfn.Poly({})
     for cond, f in cases:
         f = f if isinstance(f, RatFn) else RatFn.const(f)
         cb = list(base) + ([] if cond is True else [n.zbool(cond)])
@@ -138,13 +165,65 @@ def identity_discharge(base, cases, g_neg, timeout_ms=5000):
             r0, _ = check_sat(cb, timeout_ms)
             if r0 == 'unsat':
                 continue            # case not reachable on this path
-        if f.num.is_zero() or g.num.is_zero():
+        F = point_coeffs(f)
+        if F is None or f.num.is_zero():
             return False
-        mu = f / g                  # candidate multiplier; must be free of the point and positive
-        if set(POINT_NAMES) & mu.vars():
-            return False
-        r1, _ = check_sat(cb + [mu.z3_cmp('<=')], timeout_ms)
-        if r1 != 'unsat':
+        F, fden = F
+        keys = sorted(set(F) | set(G))
+        Fn = [F.get(k, zp) for k in keys]
+        Gn = [G.get(k, zp) for k in keys]
+        # parallel coefficient vectors: all 2x2 minors of the numerators vanish (the two common
+        # denominators factor out)
+        for i in range(len(keys)):
+            for j in range(i + 1, len(keys)):
+                if Fn[i].is_zero() and Fn[j].is_zero():
+                    continue
+                if Gn[i].is_zero() and Gn[j].is_zero():
+                    continue
+                if not (Fn[i] * Gn[j] - Fn[j] * Gn[i]).is_zero():
+                    return False
+        Fv = [RatFn(p_, fden) for p_ in Fn]
+        Gv = [RatFn(p_, gden) for p_ in Gn]
+        # f = mu g with mu free of the point.  mu > 0 iff f and g have the same strict sign at one point
+        # (witness points first), or unless every pair (F_k, G_k) has opposite (or zero) signs: z3 gets
+        # small sign conditions, never the expanded products.
+        def opposite(u, v):
+            return z3.Or(z3.And(u.z3_cmp('<='), v.z3_cmp('>=')), z3.And(u.z3_cmp('>='), v.z3_cmp('<=')))
+        proved = False
+        wvals = []
+        for w in list(witnesses) + ORIGIN_WITNESSES:
+            mp = _witness_map(w)
+            fw, gw = ratfn.substitute(f, mp), ratfn.substitute(g, mp)
+            cf, cg = fw.as_const(), gw.as_const()
+            if cf is not None and cg is not None:
+                if cf * cg > 0:
+                    proved = True
+                    break
+                continue
+            wvals.append((len(fw.num.t) + len(gw.num.t), fw, gw))
+        wvals.sort(key=lambda t: t[0])
+        if not proved:
+            for size, fw, gw in wvals[:2]:
+                if size <= 80:
+                    r2, _ = check_sat(cb + [opposite(fw, gw)], 3000)
+                    if r2 == 'unsat':
+                        proved = True
+                        break
+        if not proved:
+            opp = []
+            for a_, b_ in zip(Fv, Gv):
+                if a_.num.is_zero() and b_.num.is_zero():
+                    continue
+                opp.append(opposite(a_, b_))
+            r1, _ = check_sat(cb + opp, timeout_ms)
+            proved = (r1 == 'unsat')
+        if not proved:
+            for size, fw, gw in wvals:
+                r2, _ = check_sat(cb + [opposite(fw, gw)], 5000)
+                if r2 == 'unsat':
+                    proved = True
+                    break
+        if not proved:
             return False
     return True
 
